@@ -33,7 +33,7 @@ B = [
  ("conditional PWL: missing output without sigmoid", "conditional_pwl_calibration.py", r"missing_output = keypoint_output_min \+ tf.sigmoid\(\n          kernel_outputs\[:, :, -1\]\n      \)", "missing_output = keypoint_output_min + (\n          kernel_outputs[:, :, -1]\n      )", ["C15"]),
  ("random ensemble replace=True", "premade_lib.py", r"feature_names_not_in_lattice, size=remaining_size, replace=False\)\)", "feature_names_not_in_lattice, size=remaining_size, replace=True))", ["C17"]),
  ("compute_keypoints: duplicate-index repair removed", "premade_lib.py", r"          used_idx.add\(candidate_idx\)\n          quantiles_idx\[i\] = candidate_idx\n", "          used_idx.add(candidate_idx)\n", ["C18"]),
- ("premade: lattice input range lattice_size", "premade_lib.py", r"output_max=feature_config.lattice_size - 1", "output_max=feature_config.lattice_size", ["C03"]),
+ ("premade: lattice input range lattice_size", "premade_lib.py", r"output_init_max = output_max = feature_config.lattice_size - 1.0", "output_init_max = output_max = feature_config.lattice_size - 0.0", ["C03"]),
  ("units axis appended as monotone (+ [1])", "lattice_lib.py", r"    monotonicities = list\(monotonicities\) \+ \[0\]\n    unimodalities = list\(unimodalities\) \+ \[0\]", "    monotonicities = list(monotonicities) + [1]\n    unimodalities = list(unimodalities) + [0]", ["C09"]),
  ("Aggregation: sum instead of mean", "aggregation_layer.py", r"return tf.reduce_mean\(tf.ragged.map_flat_values\(self.model, x\), axis=1\)", "return tf.reduce_sum(tf.ragged.map_flat_values(self.model, x), axis=1)", ["C14"]),
  ("custom gradient: num_zeros >= 1", "kronecker_factored_lattice_lib.py", r"tf.equal\(num_zeros, 1\)", "tf.greater_equal(num_zeros, 1)", ["C19"]),
